@@ -1,1 +1,52 @@
-(* placeholder until the proofs land *)
+(* C01 — Assignability is sound: what is assignable never admits a foreign instance.
+   This file holds ONLY the statements of the property theorems, each closed by `exact <lemma>`, with
+   `Print Assumptions` beneath.  Model: Model/Lattice.v (`asg rx true` = types.GuardedIsAssignable followed by
+   the receiver's IsAssignable, `inst rx true` = IsInstance; the flag `true` = the by-specification rule
+   "a Struct accepts a Hash type on key type and size alone" enabled, i.e. the code as it is).
+   Hypotheses = what the Go constructors guarantee (wf_ty, wf_val) + exactly the two exclusions the property
+   names: no Unit type (no_unit), and the Struct<-Hash rule cannot have contributed (rule_free: the left
+   operand contains no Struct or the right operand contains no Hash). `rx` (Go regexp matching) is arbitrary. *)
+From Coq Require Import ZArith NArith Bool List.
+From PcoreV Require Import Model.Base Model.Ty Model.Lattice Proofs.LatticeBasics Proofs.LatticeRule Proofs.LatticeSound.
+Import ListNotations.
+Open Scope Z_scope.
+
+(* The full statement. *)
+Definition C01_statement (vals : value -> bool) : Prop :=
+  forall (rx : str -> str -> bool) (a b : ty) (v : value),
+    wf_ty a = true -> wf_ty b = true -> no_unit a = true -> no_unit b = true -> rule_free a b = true ->
+    vals v = true ->
+    asg rx true a b = true -> inst rx true b v = true -> inst rx true a v = true.
+
+(* Proved for all types of the model and all values that contain no type used as a value
+   (wf_val: hash keys pairwise different + no VType inside).  `_partial`: values that ARE types
+   (instances of Type[T]) need transitivity of assignability, see C03 / Properties/C03.v. *)
+Theorem C01_sound_partial : C01_statement wf_val.
+Proof. exact C01_sound_first_order. Qed.
+Print Assumptions C01_sound_partial.
+
+(* Non-vacuity: a nested pair that IS accepted, and an instance that flows through. *)
+Example C01_nonvacuous :
+  let rx := fun _ _ => false in
+  let a := TStruct [([97%N], (TStringVal [97%N], TTuple [TVariant [TInteger 0 10; TString]; TOptional (TInteger 0 5)] false 2 2))] in
+  let b := TStruct [([97%N], (TStringVal [97%N], TTuple [TInteger 1 5; TInteger 2 3] false 2 2))] in
+  let v := VHash [(VStr [97%N], VArr [VInt 3; VInt 2])] in
+  wf_ty a = true /\ wf_ty b = true /\ no_unit a = true /\ no_unit b = true /\ rule_free a b = true /\ wf_val v = true /\
+  asg rx true a b = true /\ inst rx true b v = true /\ inst rx true a v = true /\
+  asg rx true b a = false.
+Proof. vm_compute. repeat split; reflexivity. Qed.
+
+(* The exclusions are needed: with Unit, or through the Struct<-Hash rule, soundness fails in the model as
+   in the code (Integer accepts Unit, whose instances are all values; Struct[{a=>Integer}] accepts
+   Hash[String,Integer,1,1] whose instance {b=>1} it does not contain). *)
+Example C01_unit_excluded :
+  asg (fun _ _ => false) true (TInteger 0 0) TUnit = true /\ inst (fun _ _ => false) true TUnit (VStr []) = true /\
+  inst (fun _ _ => false) true (TInteger 0 0) (VStr []) = false.
+Proof. vm_compute. repeat split; reflexivity. Qed.
+Example C01_rule_excluded :
+  let a := TStruct [([97%N], (TStringVal [97%N], TInteger 0 9))] in
+  let b := THash TString (TInteger 0 9) 1 1 in
+  let v := VHash [(VStr [98%N], VInt 1)] in
+  asg (fun _ _ => false) true a b = true /\ inst (fun _ _ => false) true b v = true /\
+  inst (fun _ _ => false) true a v = false /\ rule_free a b = false.
+Proof. vm_compute. repeat split; reflexivity. Qed.
